@@ -697,6 +697,7 @@ func cwEmit(out *verifOut, cs string, s *cwScenario, r cwResult, extra ...string
 //	oscn mr=<MaxRetries field> fails=<n> ans=st<code>[e]      obs ok
 //	open                                                      obs gets=<GETs made>
 //	probe                                                     obs ok | err
+//	oclose                                                    obs <returned|blocked> leak=<none|leak>   (ClientSession.Close, one minute later)
 //
 // The first <fails> GETs fail in transport; the next one is answered with the status, `e`: under Content-Type
 // text/event-stream (a 2xx event stream then stays open without events).
@@ -790,13 +791,18 @@ func (sv *coServer) RoundTrip(req *http.Request) (*http.Response, error) {
 	return base.resp(req, http.StatusNoContent, "", "", ""), nil
 }
 
-func coRun(t *testing.T, s *coScenario) (gets int, probe string, bad string) {
+func coRun(t *testing.T, s *coScenario) (gets int, probe string, bad string, closed string) {
 	probe = "harness-aborted"
+	closed = "not-reached"
 	sv := &coServer{s: s}
 	func() {
 		defer func() {
 			if r := recover(); r != nil {
-				bad = "bubble:" + hxs(fmt.Sprint(r))
+				if strings.Contains(fmt.Sprint(r), "deadlock") && strings.HasPrefix(closed, "returned") {
+					closed = "returned leak=leak" // goroutines remain blocked for ever after Close
+				} else {
+					bad = "bubble:" + hxs(fmt.Sprint(r))
+				}
 			}
 		}()
 		synctest.Test(t, func(t *testing.T) {
@@ -810,6 +816,7 @@ func coRun(t *testing.T, s *coScenario) (gets int, probe string, bad string) {
 				gets = sv.gets
 				sv.mu.Unlock()
 				probe = "err" // Connect itself fails when the opening of the standalone stream has failed the connection
+				closed = "returned leak=none"
 				return
 			}
 			time.Sleep(2 * time.Hour)
@@ -824,15 +831,28 @@ func coRun(t *testing.T, s *coScenario) (gets int, probe string, bad string) {
 				probe = "ok"
 			}
 			stop()
+			// Close while the standalone stream (if one was opened) is being read: no call is pending, so Close returns
+			closeDone := make(chan struct{})
+			go func() {
+				cs.Close()
+				close(closeDone)
+			}()
+			time.Sleep(time.Minute)
+			synctest.Wait()
+			select {
+			case <-closeDone:
+				closed = "returned leak=none"
+			default:
+				closed = "blocked leak=none"
+			}
 			cancel()
-			cs.Close()
 			synctest.Wait()
 		})
 	}()
 	return
 }
 
-func coEmit(out *verifOut, cs string, s *coScenario, gets int, probe, bad string, extra ...string) {
+func coEmit(out *verifOut, cs string, s *coScenario, gets int, probe, bad, closed string, extra ...string) {
 	out.line(cs, "reset", "ok")
 	obs := "ok"
 	if bad != "" {
@@ -846,6 +866,7 @@ func coEmit(out *verifOut, cs string, s *coScenario, gets int, probe, bad string
 	out.line(cs, s.op(), obs, tags...)
 	out.line(cs, "open", fmt.Sprintf("gets=%d", gets), fmt.Sprintf("open-gets-%d", min(gets, 9)))
 	out.line(cs, "probe", probe, "probe-"+probe)
+	out.line(cs, "oclose", closed, "oclose-"+strings.ReplaceAll(closed, " ", "-"))
 }
 
 // coGenerate: MaxRetries {default, 1, 2, none} x transport failures 0..budget+1 x the answers
@@ -1051,8 +1072,8 @@ func TestVerifClientWrite(t *testing.T) {
 			ln = strings.TrimSpace(ln)
 			if strings.HasPrefix(ln, "oscn ") {
 				if s, err := coParseScenario(ln); err == nil {
-					g, p, b := coRun(t, s)
-					coEmit(out, cs, s, g, p, b, "corpus")
+					g, p, b, c := coRun(t, s)
+					coEmit(out, cs, s, g, p, b, c, "corpus")
 				} else {
 					out.line(cs, "reset", "ok")
 					out.line(cs, ln, "bad-op", "corpus")
@@ -1086,8 +1107,8 @@ func TestVerifClientWrite(t *testing.T) {
 	n := 0
 	if os.Getenv("VERIF_CASES") == "" {
 		coGenerate(func(s *coScenario) {
-			g, p, b := coRun(t, s)
-			coEmit(out, fmt.Sprintf("wo%d", n), s, g, p, b, "fam-wo")
+			g, p, b, c := coRun(t, s)
+			coEmit(out, fmt.Sprintf("wo%d", n), s, g, p, b, c, "fam-wo")
 			n++
 		})
 	}
